@@ -113,3 +113,17 @@ Proof. exact tie_resize_closed. Qed.
 Check C02_source_resize_closed : forall v c r, ZW (vterm v) -> 1 <= c -> 1 <= r -> match w_resize Og (zabs (vterm v)) (wabs (vterm v)) (Z.of_nat c) (Z.of_nat r) with Some (s, w, ok, _) => ok = true /\ stepM v (Resize c r) = vt_flush (v <| vterm := zput s w |>) | None => exists e, stepM v (Resize c r) = Panic e end.
 Print Assumptions C02_source_resize_closed.
 
+From Avt Require Import Proofs.ModeSem.
+(** Proofs/ModeSem.v *)
+(** "size() reports the geometry last requested": after ANY history the size is that of the last Resize, else the construction size (feeds never change it: XTWINOPS is neutralised) *)
+Theorem C02_size_stable : forall c r l ops v, 1 <= c -> 1 <= r -> Forall op_ok ops -> runM (vt_new c r l) ops = Ok v -> vt_size v = size_after (c, r) ops.
+Proof. exact C02_size_run. Qed.
+Check C02_size_stable : forall c r l ops v, 1 <= c -> 1 <= r -> Forall op_ok ops -> runM (vt_new c r l) ops = Ok v -> vt_size v = size_after (c, r) ops.
+Print Assumptions C02_size_stable.
+
+(** one fed character never changes the size *)
+Theorem C02_size_feed_stable : forall v c v' o, Inv v -> stepM v (Feed c) = Ok (v', o) -> vt_size v' = vt_size v.
+Proof. exact C02_size_feed. Qed.
+Check C02_size_feed_stable : forall v c v' o, Inv v -> stepM v (Feed c) = Ok (v', o) -> vt_size v' = vt_size v.
+Print Assumptions C02_size_feed_stable.
+
